@@ -479,7 +479,76 @@ def c15_h(run, fx):
         run.anchor_missing(rule, "<cff::Operand as WriteBinary>::write and <cff2::StackValue as WriteBinary>::write (found %d)" % n)
 
 
+def c15_os2(run, fx):
+    rule = "C15-o"
+    run.rule(rule, "OS/2: the tail that version 0 tables may or may not have (sTypoAscender .. usWinDescent) is read exactly when the table is long "
+                   "enough to hold it: the size test in Os2::read_dep is `table_size >= N` with N = the bytes consumed before the test plus the bytes "
+                   "the guarded part reads (68 + 10 = 78), so a table of exactly that size keeps the fields it carries")
+    b = fx.body("<tables::os2::Os2 as binary::read::ReadBinaryDep>::read_dep")
+    if b is None:
+        return run.anchor_missing(rule, "Os2::read_dep")
+    prov = sym.Prov(b)
+    items, why = layout.reader_items(fx, b)
+    m = re.search(r"branch at bb(\d+)", why)
+    if not m:
+        return run.anchor_missing(rule, "size test in Os2::read_dep")
+    sw = int(m.group(1))
+
+    def width(it):
+        if it.width:
+            return it.width
+        if it.kind == "bytes":
+            t = b.term(it.bb)
+            if len(t["args"]) > 1 and t["args"][1]["k"] == "const" and isinstance(t["args"][1].get("val"), int):
+                return t["args"][1]["val"]
+        return None
+    ws = [width(it) for it in items]
+    if None in ws:
+        return run.anchor_missing(rule, "widths of the fixed part of OS/2")
+    before = sum(ws)
+    hit = None
+    for tb, fb, op, x, y, sw2 in guards.branch_conditions(b, prov):
+        if sw2 != sw:
+            continue
+        xs, ys = sym.strip(x), sym.strip(y)
+        if ys[0] == "c" and isinstance(ys[1], int) and any(z[0] == "arg" for z in sym.walk(xs)):
+            hit = (op, ys[1], tb, fb)
+        elif xs[0] == "c" and isinstance(xs[1], int) and any(z[0] == "arg" for z in sym.walk(ys)):
+            hit = (guards.CMP_FLIP[op], xs[1], tb, fb)
+    if hit is None:
+        return run.anchor_missing(rule, "comparison of table_size with a constant at the first branch of Os2::read_dep")
+    op, k, tb, fb = hit
+    # the side that reads: the one whose first block reads from the cursor
+    def guarded(blk):
+        if blk is None:
+            return None
+        its, _ = layout.reader_items(fx, b, start=blk)
+        n = 0
+        for it in its:
+            if it.kind != "prim" and it.kind != "type":
+                break
+            n += it.width or 0
+            if n >= 10:
+                break
+        return n
+    gt, gf = guarded(tb), guarded(fb)
+    # normalise to "reads when table_size >= N"
+    if op in ("Ge", "Gt"):
+        n_min, g = (k if op == "Ge" else k + 1), gt
+    elif op in ("Lt", "Le"):
+        n_min, g = (k if op == "Lt" else k + 1), gf
+    else:
+        n_min, g = None, None
+    if n_min is not None and g and n_min == before + 10:
+        run.ok(rule, "the version 0 tail is read when table_size >= %d = %d + 10" % (n_min, before))
+    else:
+        run.fail(rule, "os2:v0-tail", "Os2::read_dep reads the version 0 tail when table_size >= %s, but the fields before it take %d bytes and the tail 10: "
+                 "a table of %d bytes loses (or a shorter one over-reads) sTypoAscender .. usWinDescent" % (n_min, before, before + 10), "%s:%s" % (b.file, b.line))
+
+
 def check(run, fx, tier, floors=True):
+    if floors or fx.body("<tables::os2::Os2 as binary::read::ReadBinaryDep>::read_dep") is not None:
+        c15_os2(run, fx)
     import speclayout
     speclayout.rule_layouts(run, fx, "C15-L", ["sfnt", "cff"], floors)
     speclayout.rule_records(run, fx, "C15-R", ['sfnt'], floors)
